@@ -205,7 +205,21 @@ def s_chest(rng, nval):
     return _mk(p.prog, "chest_output_" + k, rng, nval, edges=p.edges, chests=True)
 
 
-STRATA = [(s_inline, 4), (s_noninline, 5), (s_condvalue, 3), (s_shared_cmp, 2), (s_fanout, 2), (s_bundle_cond, 2), (s_func_configured, 2), (s_chest, 4)]
+def s_balanced_loader(rng, nval):
+    """The documented balanced-loader pattern: chests that are members of two transitively related wire merges."""
+    from . import C19
+
+    prog = C19.balanced_loader(rng)
+    pad = rng.choice([0, 0, 3, 8])     # earlier merges shift the merge ids (one digit / two digits)
+    p = P(rng)
+    for j in range(pad):
+        a, b = p.inp(), p.inp()
+        p.prog.append(["bun", "pad%d" % j, ["B", [["v", a], ["v", b]]]])
+        p.enable(p.place("small-lamp"), ["any", ">", ["v", "pad%d" % j], ["n", rng.randint(0, 9)]])
+    return _mk(p.prog + prog, "balanced_loader", rng, nval, edges=p.edges, chests=True)
+
+
+STRATA = [(s_inline, 4), (s_noninline, 5), (s_condvalue, 3), (s_shared_cmp, 2), (s_fanout, 2), (s_bundle_cond, 2), (s_func_configured, 2), (s_chest, 4), (s_balanced_loader, 2)]
 
 
 def gen_cases(tier, seed):
